@@ -87,6 +87,11 @@ def epochSubM (cfg : Config) (agg : AggOracle) (sub : String) (s : State) : Opti
   | "registry" => some (Impl.registryM cfg s.validators s)
   | "slashings" => some (Impl.slashingsM cfg s.validators s)
   | "effective_balance" => some (Impl.effectiveBalanceM cfg s.validators s)
+  | "eth1_reset" => some (Impl.eth1ResetM cfg s)
+  | "slashings_reset" => some (Impl.slashingsResetM cfg s)
+  | "randao_reset" => some (Impl.randaoResetM cfg s)
+  | "historical" => some (Impl.historicalM cfg s)
+  | "participation" => some (Impl.participationM s)
   | _ => none
 
 def c02Line (line : String) : String :=
